@@ -310,14 +310,15 @@ class Ctx:
                     if k["id"] not in [x["id"] for x in self.known_hits]:
                         self.known_hits.append(k)
                     return
-        if len(self.violations) < 20:
+        # separate caps: a flood of broken-correspondence reports must not crowd out a concrete failing input
+        if sum(1 for _, ni in self.violations if ni == no_input) < (12 if no_input else 20):
             path = self.replay_path(data)
             self.violations.append((path, no_input))
 
     def finish(self, level="proof", explanation=None):
         for k in self.known_hits:
             print("KNOWN-FINDING: property=%s %s" % (self.prop, k.get("note", k["id"])))
-        for path, no_input in self.violations:
+        for path, no_input in sorted(self.violations, key=lambda x: x[1]):
             print("VIOLATION property=%s replay=%s%s" % (self.prop, path,
                   " no-failing-input-found" if no_input else ""))
         cov = dict(self.coverage)
